@@ -59,4 +59,11 @@ def cutDot (s : String) : Option (String × String) :=
     | acc, c :: cs => if c == '.' then some (String.ofList acc.reverse, String.ofList cs) else go (c :: acc) cs
   go [] s.toList
 
+/-- `strings.Split(s, ".")` (structural, so that the kernel can evaluate it on witnesses) -/
+def splitDotAux : List Char → List Char → List String
+  | [], cur => [String.ofList cur.reverse]
+  | c :: cs, cur => if c == '.' then String.ofList cur.reverse :: splitDotAux cs [] else splitDotAux cs (c :: cur)
+
+def splitDot (s : String) : List String := splitDotAux s.toList []
+
 end Cog.Builder.Str
